@@ -1,0 +1,193 @@
+// SPDX-License-Identifier: Apache-2.0
+//! Verification seams for property C09 (scheduler pass atomicity / order).
+//!
+//! * `fingerprint`: canonical per-component digests of `WorldlineRuntime`,
+//!   `ProvenanceService` and the `Engine` scratch fields, EXCLUDING the fault
+//!   evidence fields by construction (`scheduler_faults`, `faulted_heads`,
+//!   `runtime_fault`, `next_scheduler_fault_generation`) and the derived
+//!   `runnable` cache (which is a function of heads + fault fields).
+//! * `fail_inject`: a thread-local "fail the k-th head commit of the current
+//!   pass" switch consulted at one guarded call site in `super_tick_inner`.
+//!   Private fields are read through cfg-gated in-module `echo_verif_*` methods (strictly add-only:
+//!   no visibility of any existing item changes).
+//! * fixture setters for states the public API cannot build (missing root
+//!   instance, ticks near `MAX`).
+
+use std::cell::Cell;
+
+use crate::coordinator::{RuntimeError, WorldlineRuntime};
+use crate::engine_impl::{Engine, EngineError};
+use crate::head::WriterHeadKey;
+use crate::provenance_store::{HistoryError, ProvenanceService};
+use crate::worldline::WorldlineId;
+use crate::WorldlineTick;
+
+fn digest(s: &str) -> String {
+    let h = blake3::hash(s.as_bytes());
+    let mut out = String::with_capacity(16);
+    for b in &h.as_bytes()[..8] {
+        out.push_str(&format!("{b:02x}"));
+    }
+    out
+}
+
+fn hex8(bytes: &[u8]) -> String {
+    // worldline / head ids used by the harness are small big-endian integers
+    let mut out = String::new();
+    for b in &bytes[bytes.len().saturating_sub(2)..] {
+        out.push_str(&format!("{b:02x}"));
+    }
+    out
+}
+
+fn key_name(key: &WriterHeadKey) -> String {
+    format!(
+        "{}:{}",
+        hex8(key.worldline_id.as_bytes()),
+        hex8(key.head_id.as_bytes())
+    )
+}
+
+/// Canonical `(component, digest)` list, sorted by component name.
+#[must_use]
+pub fn fingerprint(
+    runtime: &WorldlineRuntime,
+    provenance: &ProvenanceService,
+    engine: &Engine,
+) -> Vec<(String, String)> {
+    let mut out: Vec<(String, String)> = Vec::new();
+    for (key, head) in runtime.heads().iter() {
+        out.push((format!("head.{}", key_name(key)), digest(&format!("{head:?}"))));
+    }
+    for (worldline_id, frontier) in runtime.worldlines().iter() {
+        out.push((
+            format!("front.{}", hex8(worldline_id.as_bytes())),
+            digest(&format!("{frontier:?}")),
+        ));
+    }
+    out.push(("gtick".into(), format!("{}", runtime.global_tick().as_u64())));
+    for (name, text) in runtime.echo_verif_index_debug() {
+        out.push((name.to_string(), digest(&text)));
+    }
+
+    let (histories, shells) = provenance.echo_verif_history_debug();
+    for (worldline_id, text) in histories {
+        out.push((format!("prov.{}", hex8(worldline_id.as_bytes())), digest(&text)));
+    }
+    out.push(("prov.shells".into(), digest(&shells)));
+
+    let snapshot = engine.snapshot();
+    out.push((
+        "engine".into(),
+        digest(&format!(
+            "{}|root={:?}|ledger={}|snap={:?}|state={:?}|mat={:?}|intents={}",
+            engine.echo_verif_scratch_debug(),
+            engine.root_key(),
+            engine.get_ledger().len(),
+            snapshot.hash,
+            engine.state(),
+            engine.last_materialization(),
+            engine.get_intent_log().len(),
+        )),
+    ));
+    out.sort();
+    out
+}
+
+/// Sizes of the runtime indexes that have no public reader.
+#[must_use]
+pub fn summary(runtime: &WorldlineRuntime) -> Vec<(String, u64)> {
+    let mut out: Vec<(String, u64)> = runtime
+        .echo_verif_index_sizes()
+        .into_iter()
+        .map(|(name, n)| (name.to_string(), n))
+        .collect();
+    for (worldline_id, frontier) in runtime.worldlines().iter() {
+        out.push((
+            format!("committed.{}", hex8(worldline_id.as_bytes())),
+            frontier.state().committed_ingress.len() as u64,
+        ));
+    }
+    out
+}
+
+// ---------------------------------------------------------------------------
+// fail_inject
+// ---------------------------------------------------------------------------
+
+/// Failure kinds the injection point can raise.
+#[derive(Clone, Copy, Debug, PartialEq, Eq)]
+pub enum InjectKind {
+    Engine,
+    Provenance,
+    FrontierTickOverflow,
+    UnknownWorldline,
+    CorrelationMismatch,
+    Panic,
+}
+
+thread_local! {
+    static PLAN: Cell<Option<(u32, InjectKind)>> = const { Cell::new(None) };
+}
+
+/// Arms the switch: the `k`-th (0-based) head commit that reaches the
+/// injection point from now on fails with `kind`; the switch then disarms.
+pub fn arm_fail_inject(k: u32, kind: InjectKind) {
+    PLAN.with(|p| p.set(Some((k, kind))));
+}
+
+/// Disarms the switch; returns `true` when it was still armed (did not fire).
+pub fn disarm_fail_inject() -> bool {
+    PLAN.with(|p| p.replace(None)).is_some()
+}
+
+/// Consulted by `super_tick_inner` after a head commit has performed all of
+/// its mutations (engine commit, provenance append, committed ingress, tick
+/// advance, receipt correlations) and before its `StepRecord` is returned.
+pub(crate) fn fail_inject(key: &WriterHeadKey) -> Option<RuntimeError> {
+    let plan = PLAN.with(Cell::get)?;
+    let (countdown, kind) = plan;
+    if countdown > 0 {
+        PLAN.with(|p| p.set(Some((countdown - 1, kind))));
+        return None;
+    }
+    PLAN.with(|p| p.set(None));
+    Some(match kind {
+        InjectKind::Engine => RuntimeError::Engine(EngineError::UnknownTx),
+        InjectKind::Provenance => {
+            RuntimeError::Provenance(HistoryError::WorldlineNotFound(key.worldline_id))
+        }
+        InjectKind::FrontierTickOverflow => RuntimeError::FrontierTickOverflow(key.worldline_id),
+        InjectKind::UnknownWorldline => RuntimeError::UnknownWorldline(key.worldline_id),
+        InjectKind::CorrelationMismatch => RuntimeError::ReceiptCorrelationReplayMismatch([0xC9; 32]),
+        InjectKind::Panic => std::panic::panic_any("echo-verif-injected-panic"),
+    })
+}
+
+// ---------------------------------------------------------------------------
+// fixture setters
+// ---------------------------------------------------------------------------
+
+/// Removes the root warp instance of a worldline's frontier state, so the next
+/// engine commit on it fails honestly with `EngineError::UnknownWarp`.
+pub fn break_root_instance(runtime: &mut WorldlineRuntime, worldline_id: WorldlineId) -> bool {
+    let Ok(frontier) = runtime.frontier_mut(&worldline_id) else {
+        return false;
+    };
+    let root_warp = frontier.state.root.warp_id;
+    frontier.state.warp_state.delete_instance(&root_warp)
+}
+
+/// Sets the runtime's global tick.
+pub fn set_global_tick(runtime: &mut WorldlineRuntime, raw: u64) {
+    runtime.echo_verif_set_global_tick(raw);
+}
+
+/// Sets a worldline's frontier tick (provenance is NOT adjusted).
+pub fn set_frontier_tick(runtime: &mut WorldlineRuntime, worldline_id: WorldlineId, raw: u64) -> bool {
+    let Ok(frontier) = runtime.frontier_mut(&worldline_id) else {
+        return false;
+    };
+    frontier.frontier_tick = WorldlineTick::from_raw(raw);
+    true
+}
